@@ -76,7 +76,13 @@ Definition reachable_funs (pol : policy) (funs : funtab) (entries : list string)
 Fixpoint unknowns (pol : policy) (s : stmt) : list string :=
   match s with
   | Acc loc _ => match guard_of pol loc with Some _ => [] | None => ["access to " ++ loc] end
-  | Call loc m => match effect_of pol loc m with Some _ => [] | None => ["call " ++ loc ++ "." ++ m] end
+  | Call loc m =>
+      match effect_of pol loc m with
+      | Some EWrite | Some ERead =>
+          match guard_of pol loc with Some _ => [] | None => ["call " ++ loc ++ "." ++ m ++ " (touches " ++ loc ++ ", which has no guard)"] end
+      | Some _ => []
+      | None => ["call " ++ loc ++ "." ++ m]
+      end
   | Seq a b | Branch a b => unknowns pol a ++ unknowns pol b
   | Loop a => unknowns pol a
   | Unsupported w => ["unsupported: " ++ w]
@@ -126,7 +132,7 @@ Definition mutex_of (mutexes : list (string * string)) (t : string) : string :=
     belongs to another package ([external], listed by the translator) only has methods of that
     package, whatever their names. *)
 Definition mk_policy_inferred (explicit : list (string * guard)) (effects : list (string * string * effect))
-    (mutexes : list (string * string)) (methods external : list string) (funs : funtab) (entries : list string) : policy :=
+    (mutexes : list (string * string)) (methods external selfsync : list string) (funs : funtab) (entries : list string) : policy :=
   let eff := fun loc meth =>
     match direct_call loc meth with
     | Some e => Some e
@@ -142,6 +148,8 @@ Definition mk_policy_inferred (explicit : list (string * guard)) (effects : list
        match assoc loc explicit with
        | Some g => Some g
        | None =>
+         (* sync/atomic values, sync.Map / Pool / Once / WaitGroup and channels synchronise themselves *)
+         if mem_str loc selfsync then Some Unshared else
          (* "T.*": every location of struct T (fields, values returned by its methods) *)
          match assoc (struct_of loc ++ ".*") explicit with
          | Some g => Some g
@@ -156,7 +164,7 @@ Definition mk_policy_inferred (explicit : list (string * guard)) (effects : list
 (** * C04: queries, schema reads and the LRU cache used concurrently on one open index *)
 Definition entries_C04 : list string := ["Index.Execute"; "Index.GetSchema"; "LRUCache.Get"; "LRUCache.Put"].
 
-Definition policy_C04 (mutexes : list (string * string)) (methods external : list string) (funs : funtab) : policy := mk_policy_inferred
+Definition policy_C04 (mutexes : list (string * string)) (methods external selfsync : list string) (funs : funtab) : policy := mk_policy_inferred
   [ (* a Query value belongs to the goroutine that executes it (its expression tree is only
        read: a write to a field of an Expr* node is a write to a struct without mutex) *)
     ("Query.GroupBy", Unshared); ("Query.groupByFields", Unshared); ("Query.Expr", Unshared) ]
@@ -167,33 +175,33 @@ Definition policy_C04 (mutexes : list (string * string)) (methods external : lis
        default reading (modifies the object) holds there *)
     (* trusted to be safe for concurrent use: metric sinks, bbolt read transactions *)
     ("LRUCache.metrics", "Inc", ENone); ("Index.metrics", "Observe", ENone); ("onDemandColGetter.db", "View", ENone) ]
-  mutexes methods external funs entries_C04.
+  mutexes methods external selfsync funs entries_C04.
 
 (** * C18: AddRow called concurrently on one writer *)
 Definition entries_C18_mem : list string := ["IndexWriter.AddRow"].
 Definition entries_C18_big : list string := ["BigIndexWriter.AddRow"].
 
-Definition policy_C18_mem (mutexes : list (string * string)) (methods external : list string) (funs : funtab) : policy := mk_policy_inferred
+Definition policy_C18_mem (mutexes : list (string * string)) (methods external selfsync : list string) (funs : funtab) : policy := mk_policy_inferred
   [ (* the schema object belongs to the writer *)
     ("schema.*", GuardedBy (mutex_of mutexes "IndexWriter")) ]
   [ ]
-  mutexes methods external funs entries_C18_mem.
+  mutexes methods external selfsync funs entries_C18_mem.
 
-Definition policy_C18_big (mutexes : list (string * string)) (methods external : list string) (funs : funtab) : policy := mk_policy_inferred
+Definition policy_C18_big (mutexes : list (string * string)) (methods external selfsync : list string) (funs : funtab) : policy := mk_policy_inferred
   [ ("schema.*", GuardedBy (mutex_of mutexes "BigIndexWriter")) ]
   [ ("BigIndexWriter.tempDB", "Begin", ERead) ]
-  mutexes methods external funs entries_C18_big.
+  mutexes methods external selfsync funs entries_C18_big.
 
 (** * C17: the driver's connection cache *)
 Definition entries_C17 : list string := ["updogDriver.openFile"; "fileConn.Close"].
 
-Definition policy_C17 (mutexes : list (string * string)) (methods external : list string) (funs : funtab) : policy := mk_policy_inferred
+Definition policy_C17 (mutexes : list (string * string)) (methods external selfsync : list string) (funs : funtab) : policy := mk_policy_inferred
   [ (* a shared connection's index pointer and reference count belong to the driver's cache *)
     ("fileConn.idx", GuardedBy (mutex_of mutexes "updogDriver")); ("fileConn.refs", GuardedBy (mutex_of mutexes "updogDriver")) ]
   [ (* a connection found in the map, then closed (error path): Close of fileConn is not what is
        meant, the index behind it is *)
     ("updogDriver.fileConnCache", "Close", EWrite) ]
-  mutexes methods external funs entries_C17.
+  mutexes methods external selfsync funs entries_C17.
 
 (** The largest number of acquisitions of lock [l] on any path through a skeleton (calls of
     analysed functions inlined up to [fuel]; a loop that acquires counts as "many").  An entry
